@@ -5,9 +5,11 @@ package mon
 
 import (
 	"bytes"
+	"context"
 	"errors"
 	"fmt"
 	"io"
+	"net"
 	"os"
 	"reflect"
 	"runtime"
@@ -256,6 +258,11 @@ type RecordingWriter struct {
 	depth int
 	// Failed is set once Err has been returned.
 	Failed bool
+	// FailOnce: after Err has been returned once the writer accepts
+	// everything (a full socket buffer that drained, a transient condition).
+	// Bytes accepted up to the failure are in AcceptedAtFailure.
+	FailOnce          bool
+	AcceptedAtFailure int
 }
 
 func NewWriter() *RecordingWriter { return &RecordingWriter{FailAt: -1} }
@@ -267,7 +274,7 @@ func (w *RecordingWriter) Write(p []byte) (int, error) {
 		w.Inner()
 		w.depth--
 	}
-	if w.FailAt < 0 {
+	if w.FailAt < 0 || w.FailOnce && w.Failed {
 		w.Buf = append(w.Buf, p...)
 		w.Accepted += len(p)
 		return len(p), nil
@@ -283,6 +290,7 @@ func (w *RecordingWriter) Write(p []byte) (int, error) {
 			// everything offered was accepted, and yet the write failed
 			// (a tee whose mirror failed, a flush error, a deadline)
 			w.Failed = true
+			w.AcceptedAtFailure = w.Accepted
 			return len(p), w.Err
 		}
 		return len(p), nil
@@ -290,6 +298,7 @@ func (w *RecordingWriter) Write(p []byte) (int, error) {
 	w.Buf = append(w.Buf, p[:room]...)
 	w.Accepted += room
 	w.Failed = true
+	w.AcceptedAtFailure = w.Accepted
 	return room, w.Err
 }
 
@@ -441,6 +450,9 @@ type DeadlineConn struct {
 	TimedOut   int // Reads failed with a deadline error
 	LeftArmed  int // Idle calls that found a deadline armed
 	ReadsCount int
+	CloseCalls int // Close calls made by the code under test
+	WriteCalls int // Write calls made by the code under test
+	closed     bool
 }
 
 func NewDeadlineConn(data []byte, chunk int) *DeadlineConn {
@@ -471,8 +483,23 @@ func (d *DeadlineConn) Idle(dur time.Duration) {
 	d.now += dur
 }
 
+// The rest of net.Conn: nothing but Read and the deadline methods is the
+// library's business on a connection it was asked to read a packet from.
+func (d *DeadlineConn) Write(p []byte) (int, error) { d.WriteCalls++; return len(p), nil }
+func (d *DeadlineConn) Close() error                { d.CloseCalls++; d.closed = true; return nil }
+func (d *DeadlineConn) LocalAddr() net.Addr         { return memAddr{} }
+func (d *DeadlineConn) RemoteAddr() net.Addr        { return memAddr{} }
+
+type memAddr struct{}
+
+func (memAddr) Network() string { return "mem" }
+func (memAddr) String() string  { return "mem" }
+
 func (d *DeadlineConn) Read(p []byte) (int, error) {
 	d.ReadsCount++
+	if d.closed {
+		return 0, net.ErrClosed
+	}
 	if d.armed && d.now > d.at {
 		d.TimedOut++
 		return 0, os.ErrDeadlineExceeded
@@ -491,3 +518,84 @@ func (d *DeadlineConn) Read(p []byte) (int, error) {
 
 // Consumed is the number of stream bytes handed out so far.
 func (d *DeadlineConn) Consumed() int { return d.pos }
+
+// CountingConn wraps a real connection, keeps its whole method set (so that
+// the code under test sees a net.Conn) and records what is done to it.
+type CountingConn struct {
+	net.Conn
+	N          int64 // bytes handed out by Read
+	Calls      int
+	CloseCalls int
+	WriteCalls int
+	SetCalls   int
+}
+
+func (c *CountingConn) Read(p []byte) (int, error) {
+	n, err := c.Conn.Read(p)
+	c.N += int64(n)
+	c.Calls++
+	return n, err
+}
+func (c *CountingConn) Close() error                { c.CloseCalls++; return c.Conn.Close() }
+func (c *CountingConn) Write(p []byte) (int, error) { c.WriteCalls++; return c.Conn.Write(p) }
+func (c *CountingConn) SetDeadline(t time.Time) error {
+	c.SetCalls++
+	return c.Conn.SetDeadline(t)
+}
+func (c *CountingConn) SetReadDeadline(t time.Time) error {
+	c.SetCalls++
+	return c.Conn.SetReadDeadline(t)
+}
+
+// SlowReader delivers Data in two parts with a real pause in between (a peer
+// on a slow link): the first PauseAt bytes, then nothing for Pause, then the
+// rest. Tick, when set, is called about once a second while it waits, so that
+// a watchdog can tell waiting from hanging.
+type SlowReader struct {
+	Data    []byte
+	PauseAt int
+	Pause   time.Duration
+	Tick    func()
+	Chunk   int // bytes per Read after the pause at most (0: as many as asked for)
+	pos     int
+	paused  bool
+}
+
+func (s *SlowReader) Read(p []byte) (int, error) {
+	if s.pos >= len(s.Data) {
+		return 0, io.EOF
+	}
+	if s.pos >= s.PauseAt && !s.paused {
+		s.paused = true
+		for left := s.Pause; left > 0; left -= time.Second {
+			d := left
+			if d > time.Second {
+				d = time.Second
+			}
+			time.Sleep(d)
+			if s.Tick != nil {
+				s.Tick()
+			}
+		}
+	}
+	end := len(s.Data)
+	if !s.paused && end > s.PauseAt {
+		end = s.PauseAt
+	}
+	if s.paused && s.Chunk > 0 && end > s.pos+s.Chunk {
+		end = s.pos + s.Chunk
+	}
+	n := copy(p, s.Data[s.pos:end])
+	s.pos += n
+	return n, nil
+}
+
+// SentinelErrors are the error values of the standard library and the
+// operating system that transports really return; code that treats one of
+// them specially (retries, translates, swallows) meets it here.
+var SentinelErrors = []error{
+	io.ErrShortWrite, io.EOF, io.ErrUnexpectedEOF, io.ErrClosedPipe, io.ErrNoProgress,
+	os.ErrDeadlineExceeded, os.ErrClosed, net.ErrClosed,
+	syscall.EPIPE, syscall.EAGAIN, syscall.ECONNRESET, syscall.EINTR, syscall.ETIMEDOUT,
+	context.Canceled, context.DeadlineExceeded,
+}
